@@ -18,8 +18,8 @@ TA = pg.TraverseAction
 DQ = pg.symbolic.DescendantQueryOption
 
 TIERS = {
-    'quick': dict(shards=4, cases=1600),
-    'thorough': dict(shards=16, cases=6400),
+    'quick': dict(shards=8, cases=4000),
+    'thorough': dict(shards=16, cases=60000),
 }
 RULE = ('case kind by index % 20: 16 path cases (a key sequence of 0-5 keys over '
         'non-empty strings with balanced brackets -- dots, brackets, digit-only, '
@@ -156,9 +156,16 @@ def mixed_types(*paths):
 
 
 def related(rng, ks):
-  mode = rng.choice(['equal', 'prefix', 'extension', 'sibling', 'twin', 'random',
-                     'random'])
+  mode = rng.choice(['equal', 'prefix', 'extension', 'sibling', 'twin', 'renumber',
+                     'random', 'random'])
   ks = list(ks)
+  if mode == 'renumber':
+    idx = [i for i, k in enumerate(ks) if isinstance(k, int)]
+    if idx:
+      i = rng.choice(idx)
+      ks[i] = rng.choice([k for k in INT_KEYS + [20, 100, -20] if k != ks[i]])
+      return mode, ks
+    mode = 'sibling'
   if mode == 'equal':
     return mode, list(ks)
   if mode == 'prefix' and ks:
@@ -221,7 +228,7 @@ def path_case(ctx, i):
   ctx.label = None
   c['arith'] += 1
   if tk(p.keys) != tk(ks):
-    bad('arith', form, f'constructed keys {p.keys!r}')
+    bad('arith', form.split('[')[0], f'{form}: constructed keys {p.keys!r}')
     p = KeyPath(list(ks))
 
   # -- print / parse ----------------------------------------------------------
@@ -427,6 +434,11 @@ def gen_tree(rng, depth, sym, budget, opts, root=False):
     keys = gen_keys(rng, n, ints=sym and opts['int_keys'])
     return {'t': 'D', 'sym': sym, 'items': [(k, child()) for k in keys]}
   if t == 'L':
+    if rng.random() < 0.06:      # indices >= 10 ('[10]' sorts before '[2]' as text)
+      extra = rng.randint(10, 13) - n
+      budget.n -= extra
+      return {'t': 'L', 'sym': sym,
+              'items': [child() for _ in range(n)] + [gen_leaf(rng) for _ in range(extra)]}
     return {'t': 'L', 'sym': sym, 'items': [child() for _ in range(n)]}
   return {'t': 'O', 'sym': True, 'cls': rng.choice(OBJ_CLASSES),
           'items': [('x', child()), ('y', child())]}
@@ -584,8 +596,11 @@ def check_log(ctx, report, variant, root, log, expected, offset=()):
     if tk(offset + keys) not in seen:
       if keys and tk(keys[:-1]) in expected and tk(offset + keys[:-1]) not in seen:
         continue          # reported for the topmost missing position only
-      par = cls_name(nav(root, keys[:-1])) if keys else 'root'
-      bad('visit-missing', f'{entry}/{par}', f'position {show(keys)} ({node!r:.60}) not visited')
+      # pg.traverse: the key names the class of the container whose member
+      # was not visited.
+      par = ('/' + (cls_name(nav(root, keys[:-1])) if keys else 'root')
+             if entry == 'pg.traverse' else '')
+      bad('visit-missing', entry + par, f'position {show(keys)} ({node!r:.60}) not visited')
 
 
 def tree_case(ctx, i):
@@ -770,8 +785,7 @@ def tree_case(ctx, i):
         missing = [ks_ for n, kss in ids.items() if hv.get(n, 0) < len(kss) for ks_ in kss]
         missing.sort(key=len)      # topmost first
         clause = 'visit-missing' if missing else 'visit-duplicate'
-        par = ('/' + cls_name(nav(root, missing[0][:-1]))) if missing else ''
-        bad(clause, family(entry) + par, f'{entry}: expected {len(want)} nodes, got '
+        bad(clause, family(entry), f'{entry}: expected {len(want)} nodes, got '
             f'{len(have)}; positions concerned: {missing[:4]!r}')
     strict = set(expected) - {tk(())}
     ctx.label = 'sym_descendants'
@@ -1043,6 +1057,12 @@ def set_history(ctx, i, flags):
     return state_ok(report, mech, s, m, full)
 
   def state_ok(bad, mech, s, m, full):  # pylint: disable=redefined-outer-name
+    ctx.label = 'KeyPathSet[read]'
+    ok = read_paths_ok(bad, mech, s, m, full)
+    ctx.label = None
+    return ok
+
+  def read_paths_ok(bad, mech, s, m, full):  # pylint: disable=redefined-outer-name
     o = outcome(lambda: list(s))
     if o[0] == 'raise':
       bad('set-contents', mech, f'iteration raised {o[1]!r}')
